@@ -50,7 +50,7 @@ impl PatchHeader {
 
     /// Set the origin of the patch.
     pub fn set_origin(&mut self, category: Option<OriginCategory>, origin: Origin) {
-        self.0.insert(
+        self.0.set(
             "Origin",
             crate::fields::format_origin(&category, &origin).as_str(),
         );
@@ -66,7 +66,7 @@ impl PatchHeader {
 
     /// Set the `Forwarded` field.
     pub fn set_forwarded(&mut self, forwarded: Forwarded) {
-        self.0.insert("Forwarded", forwarded.to_string().as_str());
+        self.0.set("Forwarded", forwarded.to_string().as_str());
     }
 
     /// The author of the patch.
@@ -76,10 +76,11 @@ impl PatchHeader {
 
     /// Set the author of the patch.
     pub fn set_author(&mut self, author: &str) {
-        if self.0.contains_key("From") {
-            self.0.insert("From", author);
+        // Write the field that author() reads: Author takes precedence over From
+        if self.0.contains_key("From") && !self.0.contains_key("Author") {
+            self.0.set("From", author);
         } else {
-            self.0.insert("Author", author);
+            self.0.set("Author", author);
         }
     }
 
@@ -99,7 +100,7 @@ impl PatchHeader {
     /// Set the date of the last update
     pub fn set_last_update(&mut self, date: chrono::NaiveDate) {
         self.0
-            .insert("Last-Update", date.format("%Y-%m-%d").to_string().as_str());
+            .set("Last-Update", date.format("%Y-%m-%d").to_string().as_str());
     }
 
     /// The `Applied-Upstream` field.
@@ -113,7 +114,7 @@ impl PatchHeader {
     /// Set the `Applied-Upstream` field.
     pub fn set_applied_upstream(&mut self, applied_upstream: AppliedUpstream) {
         self.0
-            .insert("Applied-Upstream", applied_upstream.to_string().as_str());
+            .set("Applied-Upstream", applied_upstream.to_string().as_str());
     }
 
     /// Get the bugs associated with the patch.
@@ -142,12 +143,12 @@ impl PatchHeader {
 
     /// Set the upstream bug associated with the patch.
     pub fn set_upstream_bug(&mut self, bug: &str) {
-        self.0.insert("Bug", bug);
+        self.0.set("Bug", bug);
     }
 
     /// Set the bug associated with a specific vendor.
     pub fn set_vendor_bug(&mut self, vendor: &str, bug: &str) {
-        self.0.insert(format!("Bug-{}", vendor).as_str(), bug);
+        self.0.set(format!("Bug-{}", vendor).as_str(), bug);
     }
 
     /// Get the description or subject field.
@@ -164,25 +165,18 @@ impl PatchHeader {
 
     /// Set the description of the patch.
     pub fn set_description(&mut self, description: &str) {
-        if let Some(subject) = self.0.get("Subject") {
-            // Replace the first line with ours
-            let new = format!(
-                "{}\n{}",
-                description,
-                subject.split_once('\n').map(|x| x.1).unwrap_or("")
-            );
-            self.0.insert("Subject", new.as_str());
-        } else if let Some(description) = self.0.get("Description") {
-            // Replace the first line with ours
-            let new = format!(
-                "{}\n{}",
-                description.split_once('\n').map(|x| x.1).unwrap_or(""),
-                description
-            );
-            self.0.insert("Description", new.as_str());
+        // Write the field that description() reads: Description takes precedence over Subject
+        let field = if !self.0.contains_key("Description") && self.0.contains_key("Subject") {
+            "Subject"
         } else {
-            self.0.insert("Description", description);
-        }
+            "Description"
+        };
+        // Replace the first line with ours
+        let new = match self.0.get(field).as_deref().and_then(|old| old.split_once('\n')) {
+            Some((_, rest)) => format!("{}\n{}", description, rest),
+            None => description.to_string(),
+        };
+        self.0.set(field, new.as_str());
     }
 
     /// Get the long description of the patch.
@@ -194,25 +188,22 @@ impl PatchHeader {
 
     /// Set the long description of the patch.
     pub fn set_long_description(&mut self, long_description: &str) {
-        if let Some(subject) = self.0.get("Subject") {
-            // Keep the first line, but replace the rest with our text
-            let first_line = subject
-                .split_once('\n')
-                .map(|x| x.0)
-                .unwrap_or(subject.as_str());
-            let new = format!("{}\n{}", first_line, long_description);
-            self.0.insert("Subject", new.as_str());
-        } else if let Some(description) = self.0.get("Description") {
-            // Keep the first line, but replace the rest with our text
-            let first_line = description
-                .split_once('\n')
-                .map(|x| x.0)
-                .unwrap_or(description.as_str());
-            let new = format!("{}\n{}", first_line, long_description);
-            self.0.insert("Description", new.as_str());
+        // Write the field that long_description() reads: Description takes precedence over Subject
+        let field = if !self.0.contains_key("Description") && self.0.contains_key("Subject") {
+            "Subject"
         } else {
-            self.0.insert("Description", long_description);
-        }
+            "Description"
+        };
+        // Keep the first line, but replace the rest with our text
+        let new = match self.0.get(field) {
+            Some(old) => format!(
+                "{}\n{}",
+                old.split_once('\n').map(|x| x.0).unwrap_or(old.as_str()),
+                long_description
+            ),
+            None => long_description.to_string(),
+        };
+        self.0.set(field, new.as_str());
     }
 
     /// Write the patch header
